@@ -22,6 +22,8 @@ CLAIMED = {
          "bounds: <= 3 references; ActiveNet <= 8 ASCII bytes (non-ASCII names are unsupported by the ToLower model and excluded by assumption); the call site in DefaultChecker.ContextCheck (argument order) and the viper/JSON loading path of SetupConfig are not encoded"),
  "C32": ("4 C32", "checkFrozenAddresses on 0..2 frozen entries (resolved or unresolved hash, symbolic start height), 0..2 referenced and 0..2 created outputs with fully symbolic 21-byte program hashes: accepted <=> no active entry equals any touched hash, in either position. enforceFrozenAddresses: for every mainnet spelling the list becomes the single coordinated entry whatever the local list was.",
          "bounds: <= 2 entries / 2 references / 2 outputs; the coinbase exemption (ContextCheck is not run for coinbase) and address-string resolution in Sterilize (base58) are not encoded"),
+ "C39": ("4 C39", "bloom.Filter with symbolic filter bytes, hash count, tweak and elements, MurmurHash3 executed for real: after Add(x); Add(y) both match and no bit is ever cleared; AddOutPoint/AddHash then match; MatchTxAndUpdate on a real TransferAsset transaction that pays to a watched program hash (any output position) or spends a watched outpoint (any input position) returns true and the paying outpoint matches afterwards; side-chain SPV filters (tweak MaxUint32) match watched hashes and watched transaction types.",
+         "bounds: filter 1..4 bytes (1..2 for the transaction harness; 8/4 thorough), 1..3 hash functions, elements 0..5 bytes plus 21/32/34-byte hashes and outpoints, <= 2 outputs / 2 inputs; SHA-256 of a symbolic transaction is an uninterpreted function; multiplications/remainders are first abstracted as uninterpreted functions (sound for unsat) and every sat verdict is re-decided exactly; empty filters (division by zero) are a C03 question and excluded; false-positive rate and NewFilter sizing not encoded"),
 }
 
 # thorough tier (deeper bounds + every unsat cross-checked with z3 5.1.0) is
@@ -58,7 +60,6 @@ NA = {
  "C36": "net/http request handling, string/IP parsing: outside what the engine encodes",
  "C37": "ECDSA/Schnorr signing and base58: elliptic-curve and big-radix string arithmetic out of solver reach",
  "C38": "a property of which random source is CALLED (program structure), not of input/output values: no assertion over symbolic inputs expresses it",
- "C39": "murmur3 over symbolic data with k hash functions: multiplication-heavy bit-vector queries; not built in this session",
  "C40": "data-race freedom under arbitrary schedules: the engine is sequential; concurrency is a stated weak target for this technique",
 }
 
